@@ -1115,7 +1115,10 @@ impl Eng {
                                 if seal_rejections.insert(ci) {
                                     let r = self.all(ss, op, |s| seal_with(s, pk, c).map(|_| vec![]));
                                     self.sc(if c.pt.is_empty() { "empty_plaintext" } else { "valid" });
-                                    self.compare(Sev::Hard, op, cs, &c.name, false, Some(true), &r, || format!("{ksrc} key by {} pk={}", kp.name(), hxs(pk.as_ref())));
+                                    // an empty plaintext is well defined in RFC 9180 but the property only asks the
+                                    // providers to agree: no expected verdict for it
+                                    let exp = if c.pt.is_empty() { None } else { Some(true) };
+                                    self.compare(Sev::Hard, op, cs, &c.name, false, exp, &r, || format!("{ksrc} key by {} pk={}", kp.name(), hxs(pk.as_ref())));
                                 }
                                 continue;
                             }
@@ -1144,7 +1147,7 @@ impl Eng {
         let r: Vec<(Prov, Oc)> = self.ctx_seal_empty.iter().map(|(p, o)| (*p, o.clone())).collect();
         if r.len() > 1 {
             self.sc("empty_plaintext");
-            self.compare(Sev::Hard, "ctx_seal", cs, "empty_plaintext", false, Some(true), &r, || "first message of a fresh sender context, empty plaintext, aad None".into());
+            self.compare(Sev::Hard, "ctx_seal", cs, "empty_plaintext", false, None, &r, || "first message of a fresh sender context, empty plaintext, aad None".into());
         }
     }
 
@@ -1820,7 +1823,15 @@ impl Eng {
                 let vs = res.iter().map(|(p, o)| format!("{}={}", p.name(), o.cls())).collect::<Vec<_>>().join("|");
                 self.out.violate(
                     PROP,
-                    format!("C14|x509|{}|t={tc}|expected={exps}|{vs}", b.variant),
+                    // one signature per root cause: an otherwise valid chain evaluated exactly at
+                    // notAfter, and chains whose intermediates are not in issuance order
+                    if tc == "na" && exp == Some(true) {
+                        format!("C14|x509|valid_chain_at_not_after|expected=accept|{vs}")
+                    } else if b.variant == "reordered_intermediate" {
+                        format!("C14|x509|reordered_intermediate|expected=unspecified|{vs}")
+                    } else {
+                        format!("C14|x509|{}|t={tc}|expected={exps}|{vs}", b.variant)
+                    },
                     format!(
                         "shape {} time {t} ({tc}; focus window [{NB},{NA}]); {}; chain lens {:?}",
                         b.shape,
